@@ -128,6 +128,7 @@ theorem eq_asg : ∀ (n : Nat) (a b : Ty), a.w + b.w ≤ n → Ty.WF cfg a → T
     | float lo hi => cases b <;> simp at h; obtain ⟨h1, h2⟩ := h; subst h1; subst h2; exact same rfl
     | bool v => cases b <;> simp at h; subst h; exact same rfl
     | tspan r => cases b <;> simp at h; subst h; exact same rfl
+    | tstamp r => cases b <;> simp at h; subst h; exact same rfl
     | strSz r => cases b <;> simp at h; subst h; exact same rfl
     | strVal s => cases b <;> simp at h; subst h; exact same rfl
     | regexp s => cases b <;> simp at h; subst h; exact same rfl
